@@ -213,6 +213,8 @@ def build(template_path, repo, variant="strict"):
                 opts["rules"] = d2.split()[1:]
             elif d2.startswith("r13 "):
                 opts.setdefault("r13", []).append(int(d2.split()[1]))
+            elif d2.startswith("derive "):
+                opts["derive"] = d2[len("derive "):].strip()
             elif d2 == "nocanary":
                 opts["nocanary"] = True
             elif d2 == "bodyless":
@@ -393,6 +395,20 @@ def build(template_path, repo, variant="strict"):
                                   "loops_with_invariant": len(opts["loops"]), "hints": len(opts["hints"])})
         else:
             out.append(("// ---- extracted: %s %s (lines %d-%d, sha256 %s) ----" % (relfile, selector, item.line0, item.line1, item.sha[:16]), ("gen", None, 0)))
+            if opts.get("derive"):
+                # rule R1 drops derive lists; a unit may keep the structural ones Verus understands (PartialEq/Eq/Clone/Copy)
+                emit = None
+                if "=>" in opts["derive"]:
+                    opts["derive"], emit = [x.strip() for x in opts["derive"].split("=>")]
+                want = [x.strip() for x in opts["derive"].split(",")]
+                orig = re.search(r"#\[\s*derive\s*\(([^)]*)\)", untok(item.toks))
+                have = [x.strip() for x in orig.group(1).split(",")] if orig else []
+                missing = [w for w in want if w not in have]
+                if missing:
+                    res.lost.append("%s: derive(%s) no longer present in the source" % (where, ",".join(missing)))
+                else:
+                    out.append(("#[derive(%s)]" % (emit or ", ".join(want)), ("gen", None, 0)))
+                    log.append(("R1", where, "derive(%s)" % ", ".join(have), "derive(%s)" % (emit or ", ".join(want))))
             for (t, o) in _toks_to_lines(toks, relfile, src_line_of):
                 out.append((t, ("repo", relfile, o) if isinstance(o, int) else ("gen", None, 0)))
             res.functions.append({"name": item.name, "selector": selector, "file": relfile,
